@@ -45,6 +45,9 @@ type Link struct {
 	KeepLog  bool
 	ID       tcpip.LinkEndpointID
 	ViewSize int // >0: inbound packets are delivered in views of this size (like fdbased)
+	// Refuse, when set, lets the link refuse a packet (WritePacket returns ErrNoBufferSpace
+	// and nothing is emitted), as a device with a full queue does.
+	Refuse func(proto tcpip.NetworkProtocolNumber, hdr buffer.View, payload buffer.VectorisedView) bool
 
 	// The link keeps the header views of the last packets it was handed, the way a
 	// queueing link (protocol/link/channel) does, together with a snapshot: a header that
@@ -132,6 +135,9 @@ func (l *Link) AddTap(f func(f *Frame))                      { l.Taps = append(l
 
 func (l *Link) WritePacket(r *stack.Route, hdr buffer.Prependable, payload buffer.VectorisedView, protocol tcpip.NetworkProtocolNumber) *tcpip.Error {
 	vt.Tick()
+	if l.Refuse != nil && l.Refuse(protocol, hdr.View(), payload) {
+		return tcpip.ErrNoBufferSpace // the device's queue is full: the packet was not taken
+	}
 	h := hdr.View()
 	p := payload.ToView()
 	data := make([]byte, 0, len(h)+len(p))
